@@ -30,6 +30,10 @@ TEXTS = {
         level_text="Proof by the loop invariant of recv_data_frame that at every loop head (i.e. before the next transport read) the wire has grown by exactly one pong - rfc_encode(FIN, PONG, fresh key, same payload) - per ping consumed so far, in arrival order, and by nothing else; a close frame adds exactly one close reply; for every ping payload 0..125 bytes, any number and position of pings, with and without control-frame reporting.",
         level_note=TRUST + "assumed transport and key-source contracts; the pong path uses the contracts of WebSocket.pong/send/send_frame/ABNF.format proved under C01.",
         technique=TECH, design_ref="DESIGN.md 5 C07"),
+    "C08": dict(
+        level_text="Proof that an object invariant (no transport => unconnected; at most one close frame written on the client's own initiative, after which the object is unconnected) is established by __init__ and preserved by close, shutdown, send_close, send, ping, pong, send_frame, recv, recv_data_frame, _recv on every path including every transport failure - hence over all call/event histories of any length; close()/send_close() refuse out-of-range statuses before writing anything; close() writes at most the one RFC-encoded close frame, its wait loop writes nothing, and on every path it ends with the transport released; with no transport, send and receive raise the connection-closed exception with no transport call.",
+        level_note=TRUST + "assumed transport / clock contracts. NOT decided: 'close() returns within its timeout' (wall-clock liveness); only the structure (socket timeout set, clock re-read each iteration, any exception leaves the loop) is verified.",
+        technique=TECH + "; object invariant inductive over all public methods", design_ref="DESIGN.md 5 C08"),
     "C12": dict(
         level_text="Sequential part, proof: for every pattern of short writes the bytes accepted during one send_frame call are exactly one rfc_encode(frame) (loop invariant); _socket.send makes one accepted transport write per call. Concurrent part: lock-invariant obligations - the send lock is released only when no partial frame is on the wire, WebSocket._send requires the send lock, recv() performs the message read only under the read lock, recv_frame holds the frame lock until the stage flags are cleared; default construction uses real locks.",
         level_note=TRUST + "threading.Lock is a mutex (assumed); thread interleavings are NOT explored - the claim is lock discipline plus sequential correctness, as DESIGN.md 5 C12 states.",
